@@ -603,6 +603,9 @@ def true_objects(cx):
                 continue
             c = "pure" if n.startswith(("luders", "feedback", "comp")) else "boundary"
             out.append((n, c, np.concatenate([hs_of(P, ks).ravel() for ks in ins])))
+            if n.startswith(("comp", "luders")):
+                # the same instrument with its outcomes listed in reverse: on the tester state z0 the FIRST outcomes are impossible
+                out.append((n + "_reversed", c, np.concatenate([hs_of(P, ks).ravel() for ks in ins[::-1]])))
     F = cx.F
     for n, c, x in out:
         if F.eq_defect(x) > 1e-11 or F.min_eig(x) < -1e-11:
